@@ -185,7 +185,8 @@ mod harness {
     #[kani::stub(alloc::fmt::format, stub_format)]
     fn h_format_arr_too_many() { check_format_arr(4); }
     fn check_format_arr(n: usize) {
-        let w: u8 = kani::any(); let p: u8 = kani::any(); let v: u8 = kani::any();
+        // distinct small values: the obligation is about ORDER of consumption, not about number conversion
+        let w: u8 = if kani::any() { 1 } else { 5 }; let p: u8 = if kani::any() { 2 } else { 6 }; let v: u8 = if kani::any() { 3 } else { 9 };
         let vals = [Val::Num(NumValue(w as f64)), Val::Num(NumValue(p as f64)), Val::Num(NumValue(v as f64)), Val::Num(NumValue(77.0))];
         unsafe { NPROBES = 0; }
         let r = format_arr("%*.*d%%", &vals[..n]);
